@@ -17,19 +17,15 @@
 (*     drained = at the quiescent point; their order is not prescribed (reported sorted).                  *)
 EXTENDS Integers, Sequences, FiniteSets, SequencesExt, TLC
 
-CONSTANTS NH,        \* hooks attached in one history
-          NL,        \* LinkTo(target) calls in one history (link hooks get the ids NH+1..NH+NL)
-          MaxTrig,   \* Trigger stimuli in one history
-          Fams,      \* scenario families explored: subset of {"reent","gate","link","max","pool"}
-          MaxMax     \* largest event-level WithMaxTriggerCount in the "max" family
+CONSTANTS Scope      \* "lts" | "mc" | "thorough" | "trace": how much of the space is explored (bounds per scenario family, below)
 VARIABLES cfg,
           att,      \* event -> sequence of hook ids in attachment order (ids > NH: the link hook of c)
-          hk,       \* sequence of hook records [e, k, m, p, f]: event, kind, max trigger count (0 = none), pool option, times fired
+          hk,       \* sequence of hook tuples <<e, k, m, p, f>>: event, kind, max trigger count (0 = none), pool option, times fired
           ecnt,     \* event -> number of times Trigger was called on it
           link,     \* current link target of c: "a" | "b" | "none"
           nlink,    \* link hooks created so far
           ntrig,    \* Trigger stimuli so far
-          fl,       \* thread -> [stk, at]: the frames of its Trigger in flight (<<>> = idle) and the gate hook it is parked in
+          fl,       \* thread -> <<stk, at>>: the frames of its Trigger in flight (<<>> = idle) and the gate hook it is parked in
           called,   \* history: set of <<hook, arg>> delivered so far (for the invariants only; not part of View / st)
           ev
 vars == <<cfg, att, hk, ecnt, link, nlink, ntrig, fl, called, ev>>
@@ -41,88 +37,112 @@ Evs == {"a", "b", "c"}
 SSeq(S) == SetToSortSeq(S, <)
 
 (* ---- configurations: a scenario family (which hook kinds / events are used) + event options ---- *)
-Cfg(f, ma, mc, ep) == [fam |-> f, ma |-> ma, mc |-> mc, ep |-> ep]
-Cfgs == {Cfg(f, 0, 0, FALSE) : f \in Fams \cap {"reent", "gate"}}
-        \cup {Cfg("link", 0, mc, FALSE) : mc \in IF "link" \in Fams THEN {0, 1} ELSE {}}
-        \cup {Cfg("max", ma, 0, FALSE) : ma \in IF "max" \in Fams THEN 0..MaxMax ELSE {}}
-        \cup {Cfg("pool", 0, 0, ep) : ep \in IF "pool" \in Fams THEN BOOLEAN ELSE {}}
+Fams == {"reent", "gate", "link", "max", "pool"}
+Small == Scope = "lts"
+MaxMax == IF Small THEN 1 ELSE 2                        \* largest event-level WithMaxTriggerCount
+(* bounds of one history, per family: hooks attached (ids 1..nh), LinkTo(target) calls (link hook ids NH+1..), Triggers; *)
+(* they are part of cfg so that the adapter knows them                                                                   *)
+NH == 8                                                 \* ids above NH are link hooks
+NL == 4
+Bd(nh, nl, tr) == [nh |-> nh, nl |-> nl, tr |-> tr]
+B(f) == CASE Scope = "trace" -> Bd(6, 4, 8)
+          [] Scope = "lts" -> (CASE f = "link" -> Bd(2, 2, 1) [] f = "pool" -> Bd(2, 0, 1) [] OTHER -> Bd(2, 0, 2))
+          [] Scope = "mc" -> (CASE f = "link" -> Bd(2, 2, 1) [] f = "pool" -> Bd(2, 1, 1) [] f = "reent" -> Bd(3, 0, 2) [] OTHER -> Bd(2, 0, 2))
+          [] Scope = "thorough" -> (CASE f = "link" -> Bd(2, 2, 2) [] f = "pool" -> Bd(3, 1, 2) [] OTHER -> Bd(3, 0, 3))
+Cfg(f, ma, mc, ep) == [fam |-> f, ma |-> ma, mc |-> mc, ep |-> ep, nh |-> B(f).nh, nl |-> B(f).nl, tr |-> B(f).tr]
+Cfgs == {Cfg(f, 0, 0, FALSE) : f \in {"reent", "gate"}}
+        \cup {Cfg("link", 0, mc, FALSE) : mc \in IF Small THEN {0} ELSE {0, 1}}
+        \cup {Cfg("max", ma, 0, FALSE) : ma \in 0..MaxMax}
+        \cup {Cfg("pool", 0, 0, ep) : ep \in BOOLEAN}
 
 H(e, k, m, p) == [op |-> "Hook", e |-> e, k |-> k, m |-> m, p |-> p]
 (* Hook stimuli a family uses *)
 HookStimuli(c) ==
-  CASE c.fam = "reent" -> {H("a", k, 0, "inherit") : k \in {"plain", "unSelf", "unNext", "unSelfNext", "unNextSelf", "unPrev", "hookNew"}}
-                          \cup {H("a", "plain", 1, "inherit")}
-    [] c.fam = "gate"  -> {H("a", "plain", m, "inherit") : m \in {0, 1}} \cup {H("a", "gate", m, "inherit") : m \in {0, 1}}
-    [] c.fam = "link"  -> {H("a", k, 0, "inherit") : k \in {"plain", "gate"}} \cup {H("b", "plain", 0, "inherit")}
-                          \cup {H("c", "plain", m, "inherit") : m \in {0, 1}} \cup {H("c", "gate", 0, "inherit")}
-    [] c.fam = "max"   -> {H("a", "plain", m, "inherit") : m \in 0..2} \cup {H("a", "gate", 0, "inherit")}
-    [] c.fam = "pool"  -> {H("a", "plain", m, p) : m \in {0, 1}, p \in {"inherit", "pool", "sync"}}
-                          \cup {H("c", "plain", 0, p) : p \in {"inherit", "pool"}}
+  CASE c.fam = "reent" -> {H("a", k, 0, "inherit") : k \in {"plain", "unSelf", "unNext", "unSelfNext", "unNextSelf", "hookNew"}}
+                          \cup (IF Small THEN {} ELSE {H("a", "unPrev", 0, "inherit"), H("a", "plain", 1, "inherit")})
+    [] c.fam = "gate"  -> {H("a", "plain", 0, "inherit")} \cup {H("a", "gate", m, "inherit") : m \in {0, 1}}
+                          \cup (IF Small THEN {} ELSE {H("a", "plain", 1, "inherit")})
+    [] c.fam = "link"  -> {H("a", "plain", 0, "inherit"), H("c", "plain", 0, "inherit")}
+                          \cup (IF Small THEN {} ELSE {H("c", "gate", 0, "inherit"), H("a", "gate", 0, "inherit"), H("b", "plain", 0, "inherit"), H("c", "plain", 1, "inherit")})
+    [] c.fam = "max"   -> {H("a", "plain", m, "inherit") : m \in 0..2} \cup (IF Small THEN {} ELSE {H("a", "gate", 0, "inherit")})
+    [] c.fam = "pool"  -> {H("a", "plain", 0, p) : p \in {"inherit", "pool", "sync"}}
+                          \cup (IF Small THEN {} ELSE {H("a", "plain", 1, p) : p \in {"inherit", "pool"}} \cup {H("c", "plain", 0, p) : p \in {"inherit", "pool"}})
 TrigEvents(c) == IF c.fam = "link" THEN Evs ELSE IF c.fam = "pool" THEN {"a", "c"} ELSE {"a"}
 LinkTargets(c) == IF c.fam = "link" THEN {"a", "b", "none"} ELSE IF c.fam = "pool" THEN {"a", "none"} ELSE {}
 
 EMax(e) == IF e = "a" THEN cfg.ma ELSE IF e = "c" THEN cfg.mc ELSE 0
 EvPool(e) == cfg.ep /\ e = "a"                    \* event a was created WithWorkerPool(pool)
-Idle == [stk |-> <<>>, at |-> 0]
+Idle == <<<<>>, 0>>                               \* fl[t] = <<frames, gate hook>>
+(* (tuples, not records, inside the state: the LTS export identifies states by their printed form) *)
+HE(r) == r[1]
+HK(r) == r[2]
+HM(r) == r[3]
+HP(r) == r[4]
+HF(r) == r[5]
+FE(fr) == fr[1]
+FA(fr) == fr[2]
+FT(fr) == fr[3]
+FS(fr) == fr[4]
+FP(fr) == fr[5]
 
 InitState(c) == /\ cfg = c /\ att = [e \in Evs |-> <<>>] /\ hk = <<>> /\ ecnt = [e \in Evs |-> 0]
                 /\ link = "none" /\ nlink = 0 /\ ntrig = 0 /\ fl = [t \in Threads |-> Idle] /\ called = {}
 Init == \E c \in Cfgs : InitState(c) /\ ev = [op |-> "reset", cfg |-> c]
 
-(* ---- the machine: S = [att, hk, ecnt]; stk = frames [e, a, todo, seen, p] of nested Triggers (link => nested) ---- *)
+(* ---- the machine: S = [att, hk, ecnt]; stk = frames <<e, a, todo, seen, p>> of nested Triggers (link => nested) ---- *)
 Unhk(S, h) == IF h >= 1 /\ h <= Len(S.hk)
-                THEN [S EXCEPT !.att[S.hk[h].e] = SelectSeq(@, LAMBDA x : x # h)] ELSE S
-AddHook(S, e, k, m, p) == [S EXCEPT !.hk = Append(@, [e |-> e, k |-> k, m |-> m, p |-> p, f |-> 0]),
+                THEN [S EXCEPT !.att[HE(S.hk[h])] = SelectSeq(@, LAMBDA x : x # h)] ELSE S
+AddHook(S, e, k, m, p) == [S EXCEPT !.hk = Append(@, <<e, k, m, p, 0>>),
                                     !.att[e] = Append(@, Len(S.hk) + 1)]
 (* what the callback of hook h (attached to e) does besides being logged *)
 Act(S, h, e) ==
-  LET k == S.hk[h].k IN
+  LET k == HK(S.hk[h]) IN
   CASE k = "unSelf"     -> Unhk(S, h)
     [] k = "unNext"     -> Unhk(S, h + 1)
     [] k = "unSelfNext" -> Unhk(Unhk(S, h), h + 1)
     [] k = "unNextSelf" -> Unhk(Unhk(S, h + 1), h)
     [] k = "unPrev"     -> Unhk(S, h - 1)
-    [] k = "hookNew"    -> IF Len(S.hk) < NH THEN AddHook(S, e, "plain", 0, "inherit") ELSE S
+    [] k = "hookNew"    -> IF Len(S.hk) < cfg.nh THEN AddHook(S, e, "plain", 0, "inherit") ELSE S
     [] OTHER            -> S
-Pooled(S, h, e) == S.hk[h].p = "pool" \/ (S.hk[h].p = "inherit" /\ EvPool(e))
+Pooled(S, h, e) == HP(S.hk[h]) = "pool" \/ (HP(S.hk[h]) = "inherit" /\ EvPool(e))
 
 RECURSIVE Run(_, _, _, _), Visit(_, _, _, _, _, _), Begin(_, _, _, _, _, _, _)
 (* Trigger(e, a) is called (p: from a pool worker): counted; dropped when the event's limit is used up *)
 Begin(S, stk, log, plog, e, a, p) ==
   LET S1 == [S EXCEPT !.ecnt[e] = @ + 1] IN
   IF EMax(e) > 0 /\ S.ecnt[e] >= EMax(e) THEN Run(S1, stk, log, plog)
-  ELSE Run(S1, Append(stk, [e |-> e, a |-> a, todo |-> S.att[e], seen |-> ToSet(S.att[e]), p |-> p]), log, plog)
+  ELSE Run(S1, Append(stk, <<e, a, S.att[e], S.att[e], p>>), log, plog)
 (* the turn of hook h (still attached) in frame fr *)
 Visit(S, stk, log, plog, h, fr) ==
-  IF h > NH THEN Begin(S, stk, log, plog, "c", fr.a, fr.p \/ EvPool(fr.e))     \* the link hook is c.Trigger
+  IF h > NH THEN Begin(S, stk, log, plog, "c", FA(fr), FP(fr) \/ EvPool(FE(fr)))     \* the link hook is c.Trigger
   ELSE LET r == S.hk[h] IN
-    IF r.m > 0 /\ r.f >= r.m THEN Run(S, stk, log, plog)                       \* the hook's limit is used up
-    ELSE LET S1 == IF r.m > 0 THEN [S EXCEPT !.hk[h].f = @ + 1] ELSE S
-             c  == <<h, fr.a>> IN
-         IF fr.p \/ Pooled(S, h, fr.e) THEN Run(S1, stk, log, Append(plog, c))
-         ELSE IF r.k = "gate" THEN {[S |-> S1, stk |-> stk, at |-> h, log |-> Append(log, c), plog |-> plog]}
-         ELSE Run(Act(S1, h, fr.e), stk, Append(log, c), plog)
+    IF HM(r) > 0 /\ HF(r) >= HM(r) THEN Run(S, stk, log, plog)                       \* the hook's limit is used up
+    ELSE LET S1 == IF HM(r) > 0 THEN [S EXCEPT !.hk[h][5] = @ + 1] ELSE S
+             c  == <<h, FA(fr)>> IN
+         IF FP(fr) \/ Pooled(S, h, FE(fr)) THEN Run(S1, stk, log, Append(plog, c))
+         ELSE IF HK(r) = "gate" THEN {[S |-> S1, stk |-> stk, at |-> h, log |-> Append(log, c), plog |-> plog]}
+         ELSE Run(Act(S1, h, FE(fr)), stk, Append(log, c), plog)
 (* run until all frames are done or a gate hook parks the thread; the set of possible outcomes *)
 Run(S, stk, log, plog) ==
   IF stk = <<>> THEN {[S |-> S, stk |-> <<>>, at |-> 0, log |-> log, plog |-> plog]}
   ELSE LET n == Len(stk)
            fr == stk[n]
            rest == SubSeq(stk, 1, n - 1) IN
-    IF fr.todo # <<>>
-      THEN LET h == Head(fr.todo)
-               fr1 == [fr EXCEPT !.todo = Tail(@)]
+    IF FT(fr) # <<>>
+      THEN LET h == Head(FT(fr))
+               fr1 == [fr EXCEPT ![3] = Tail(@)]
                stk1 == Append(rest, fr1) IN
-           IF h \in ToSet(S.att[fr.e]) THEN Visit(S, stk1, log, plog, h, fr1)
+           IF h \in ToSet(S.att[FE(fr)]) THEN Visit(S, stk1, log, plog, h, fr1)
            ELSE Run(S, stk1, log, plog)                                         \* unhooked before its turn: not invoked
-      ELSE LET late == SelectSeq(S.att[fr.e], LAMBDA x : x \notin fr.seen) IN
+      ELSE LET late == SelectSeq(S.att[FE(fr)], LAMBDA x : x \notin ToSet(FS(fr))) IN
            IF late = <<>> THEN Run(S, rest, log, plog)
            ELSE LET h == Head(late)
-                    fr1 == [fr EXCEPT !.seen = @ \cup {h}]
+                    fr1 == [fr EXCEPT ![4] = Append(@, h)]
                     stk1 == Append(rest, fr1) IN
                 Run(S, stk1, log, plog) \cup Visit(S, stk1, log, plog, h, fr1)  \* attached after the call began: either
 
 Cur == [att |-> att, hk |-> hk, ecnt |-> ecnt]
-Obs(S, f) == [blocked |-> SSeq({t \in Threads : f[t].stk # <<>>}), at |-> <<f[1].at, f[2].at>>,
+Obs(S, f) == [blocked |-> SSeq({t \in Threads : f[t][1] # <<>>}), at |-> <<f[1][2], f[2][2]>>,
               tc |-> <<S.ecnt["a"], S.ecnt["b"], S.ecnt["c"]>>]
 CallKey(c) == c[1] * 1000 + c[2]
 SortCalls(q) == SetToSortSeq(ToSet(q), LAMBDA x, y : CallKey(x) < CallKey(y))
@@ -130,7 +150,7 @@ SortCalls(q) == SetToSortSeq(ToSet(q), LAMBDA x, y : CallKey(x) < CallKey(y))
 (* thread t ran the machine and ended in outcome o *)
 Outcome(s, t, o) ==
   /\ att' = o.S.att /\ hk' = o.S.hk /\ ecnt' = o.S.ecnt
-  /\ fl' = [fl EXCEPT ![t] = [stk |-> o.stk, at |-> o.at]]
+  /\ fl' = [fl EXCEPT ![t] = <<o.stk, o.at>>]
   /\ called' = called \cup ToSet(o.log) \cup ToSet(o.plog)
   /\ ev' = [res |-> [t |-> t, done |-> o.stk = <<>>, calls |-> o.log, pooled |-> SortCalls(o.plog)],
             st |-> Obs(o.S, fl')] @@ s
@@ -141,43 +161,44 @@ Do(s) ==
   CASE s.op = "reset" -> /\ cfg' = s.cfg /\ att' = [e \in Evs |-> <<>>] /\ hk' = <<>> /\ ecnt' = [e \in Evs |-> 0]
                          /\ link' = "none" /\ nlink' = 0 /\ ntrig' = 0 /\ fl' = [t \in Threads |-> Idle] /\ called' = {} /\ ev' = s
     [] s.op = "Hook" ->        \* e.Hook(callback of kind k, WithMaxTriggerCount(m), pool option p); returns hook id
-         /\ Len(hk) < NH /\ UNCHANGED <<cfg, link, nlink, ntrig>>
+         /\ Len(hk) < cfg.nh /\ UNCHANGED <<cfg, link, nlink, ntrig>>
          /\ Quiet(s, AddHook(Cur, s.e, s.k, s.m, s.p), [id |-> Len(hk) + 1])
     [] s.op = "Unhook" ->      \* hook h .Unhook() (also for hooks that are already unhooked: no effect)
          /\ s.h \in 1..Len(hk) /\ UNCHANGED <<cfg, link, nlink, ntrig>>
          /\ Quiet(s, Unhk(Cur, s.h), [id |-> 0])
     [] s.op = "LinkTo" ->      \* c.LinkTo(s.to): the previous link hook is unhooked, a new one attached to the target
-         /\ UNCHANGED <<cfg, ntrig>> /\ (s.to # "none" => nlink < NL)
+         /\ UNCHANGED <<cfg, ntrig>> /\ (s.to # "none" => nlink < cfg.nl)
          /\ LET S0 == IF link = "none" THEN Cur ELSE [Cur EXCEPT !.att[link] = SelectSeq(@, LAMBDA x : x <= NH)]
                 S1 == IF s.to = "none" THEN S0 ELSE [S0 EXCEPT !.att[s.to] = Append(@, NH + nlink + 1)] IN
             /\ link' = s.to /\ nlink' = IF s.to = "none" THEN nlink ELSE nlink + 1
             /\ Quiet(s, S1, [id |-> 0])
     [] s.op = "Trigger" ->     \* the lowest idle harness thread calls s.e.Trigger(ntrig + 1)
-         /\ ntrig < MaxTrig /\ \E t \in Threads : fl[t] = Idle
+         /\ ntrig < cfg.tr /\ \E t \in Threads : fl[t] = Idle
          /\ UNCHANGED <<cfg, link, nlink>> /\ ntrig' = ntrig + 1
          /\ LET t == CHOOSE x \in Threads : fl[x] = Idle /\ \A y \in Threads : fl[y] = Idle => x <= y IN
             \E o \in Begin(Cur, <<>>, <<>>, <<>>, s.e, ntrig + 1, FALSE) : Outcome(s, t, o)
     [] s.op = "Release" ->     \* the gate hook in which thread s.t is parked returns
          /\ fl[s.t] # Idle /\ UNCHANGED <<cfg, link, nlink, ntrig>>
-         /\ \E o \in Run(Cur, fl[s.t].stk, <<>>, <<>>) : Outcome(s, s.t, o)
+         /\ \E o \in Run(Cur, fl[s.t][1], <<>>, <<>>) : Outcome(s, s.t, o)
 
-Stimuli == HookStimuli(cfg) \cup [op : {"Unhook"}, h : 1..NH] \cup [op : {"LinkTo"}, to : LinkTargets(cfg)]
+Stimuli == HookStimuli(cfg) \cup [op : {"Unhook"}, h : IF Small /\ cfg.fam \in {"link", "pool"} THEN {} ELSE 1..cfg.nh] \cup [op : {"LinkTo"}, to : LinkTargets(cfg)]
            \cup [op : {"Trigger"}, e : TrigEvents(cfg)] \cup [op : {"Release"}, t : Threads]
 Next == \E s \in Stimuli : Do(s)
 Spec == Init /\ [][Next]_vars
 
 (* ---------------- the property, stated on the model ---------------- *)
-Attached(h) == h \in ToSet(att[hk[h].e])
+Attached(h) == h \in ToSet(att[HE(hk[h])])
+Budget(h) == HM(hk[h]) = 0 \/ HF(hk[h]) < HM(hk[h])
 CallsOf(e) == IF e.op \in {"Trigger", "Release"} THEN ToSet(e.res.calls) \cup ToSet(e.res.pooled) ELSE {}
 TypeOK == /\ \A e \in Evs : \A i \in DOMAIN att[e] : att[e][i] \in 1..(NH + NL)
-          /\ \A h \in DOMAIN hk : hk[h].f <= hk[h].m
+          /\ \A h \in DOMAIN hk : HF(hk[h]) <= HM(hk[h])
           /\ (link # "none" <=> \E x \in ToSet(att["a"]) \cup ToSet(att["b"]) : x > NH)
 (* a limited hook fires at most n times; a limited event delivers at most n distinct triggers *)
-MaxCount == /\ \A h \in DOMAIN hk : hk[h].m > 0 => Cardinality({c \in called : c[1] = h}) <= hk[h].m
-            /\ \A e \in Evs : EMax(e) > 0 => Cardinality({c[2] : c \in {d \in called : hk[d[1]].e = e}}) <= EMax(e)
+MaxCount == /\ \A h \in DOMAIN hk : HM(hk[h]) > 0 => Cardinality({c \in called : c[1] = h}) <= HM(hk[h])
+            /\ \A e \in Evs : EMax(e) > 0 => Cardinality({c[2] : c \in {d \in called : HE(hk[d[1]]) = e}}) <= EMax(e)
 (* exactly once: a <<hook, argument>> pair is never delivered twice.  (Hooks of c are exempt once c was re-linked:   *)
 (* a link hook attached while a trigger of the target is in flight is a hook "attached after the call began".)      *)
-Strict(c) == hk'[c[1]].e # "c" \/ nlink' <= 1
+Strict(c) == HE(hk'[c[1]]) # "c" \/ nlink' <= 1
 OncePerTrigger == [][ev'.op \in {"Trigger", "Release"} =>
                        /\ \A c \in CallsOf(ev') \cap called : ~Strict(c)
                        /\ (nlink' <= 1 => Len(ev'.res.calls) + Len(ev'.res.pooled) = Cardinality(CallsOf(ev')))]_vars
@@ -188,18 +209,18 @@ NoCallAfterUnhook == [][\A c \in CallsOf(ev') : c[1] > Len(hk) \/ Attached(c[1])
 Complete == [][(ev'.op = "Trigger" /\ ev'.res.done) =>
                  LET e == ev'.e IN
                  (EMax(e) = 0 \/ ecnt[e] < EMax(e)) =>
-                    \A h \in DOMAIN hk : (hk[h].e = e /\ Attached(h) /\ h \in ToSet(att'[e]) /\ (hk[h].m = 0 \/ hk[h].f < hk[h].m))
+                    \A h \in DOMAIN hk : (HE(hk[h]) = e /\ Attached(h) /\ h \in ToSet(att'[e]) /\ Budget(h))
                                             => <<h, ntrig'>> \in CallsOf(ev')]_vars
 (* synchronous hooks of one event are invoked in attachment order (= id order) *)
 InOrder == [][ev'.op \in {"Trigger", "Release"} =>
                 \A i, j \in DOMAIN ev'.res.calls :
-                   (i < j /\ ev'.res.calls[i][2] = ev'.res.calls[j][2] /\ hk'[ev'.res.calls[i][1]].e = hk'[ev'.res.calls[j][1]].e
+                   (i < j /\ ev'.res.calls[i][2] = ev'.res.calls[j][2] /\ HE(hk'[ev'.res.calls[i][1]]) = HE(hk'[ev'.res.calls[j][1]])
                       /\ Strict(ev'.res.calls[i]))
                       => ev'.res.calls[i][1] < ev'.res.calls[j][1]]_vars
 (* link: with nothing in flight, hooks of c fire only for triggers of c or of its CURRENT target, and then they do *)
 LinkExclusive == [][(ev'.op = "Trigger" /\ \A t \in Threads : fl[t] = Idle) =>
-                      /\ (ev'.e # "c" /\ link # ev'.e) => \A c \in CallsOf(ev') : hk'[c[1]].e # "c"
+                      /\ (ev'.e # "c" /\ link # ev'.e) => \A c \in CallsOf(ev') : HE(hk'[c[1]]) # "c"
                       /\ (ev'.res.done /\ link = ev'.e /\ EMax("c") = 0 /\ EMax(ev'.e) = 0) =>
-                            \A h \in DOMAIN hk : (hk[h].e = "c" /\ Attached(h) /\ h \in ToSet(att'["c"]) /\ (hk[h].m = 0 \/ hk[h].f < hk[h].m))
+                            \A h \in DOMAIN hk : (HE(hk[h]) = "c" /\ Attached(h) /\ h \in ToSet(att'["c"]) /\ Budget(h))
                                                     => <<h, ntrig'>> \in CallsOf(ev')]_vars
 =============================================================================
